@@ -28,7 +28,7 @@ ASSUMPTIONS = ["forcing.module is always given (the property does not say what a
                "the release file has no header line (version 1 always passes the column names)"]
 TIERS = {"quick": dict(runs=220, budget_s=50, shrink=80),
          "thorough": dict(runs=15000, budget_s=900, shrink=150)}
-REQUIRED_PROBES = ["v1", "toml", "grid_omitted", "wildcard", "sections_omitted", "diffusion", "continuous", "leftover_frequency", "user_gridforce_module"]
+REQUIRED_PROBES = ["v1", "toml", "grid_omitted", "wildcard", "sections_omitted", "diffusion", "continuous", "leftover_frequency", "user_gridforce_module", "grid_in_first_file_only"]
 
 PROFILE = gen.profile(
     nsteps=(2, 24), p_reversed=0.0, p_land=0.4, p_subgrid=0.35, N=(1, 4), p_vinfo=0.0, cfl=(0.05, 0.6),
@@ -54,6 +54,8 @@ def generate(seed: int, tier: str, idx: int) -> dict:
         sc["release"].pop("mult_column")
         sc["release"].pop("col_order", None)
     sc["plan"] = {"omit_ibm": s.chance(0.5), "alt_module": s.chance(0.4)}
+    if len(world.frame_partition(sc)) > 1 and s.chance(0.6):
+        sc["frames"]["grid_in_first_only"] = True     # "the first forcing file" is then the only possible grid file
     if not sc["release"].get("continuous") and s.chance(0.5):
         # a discrete release whose configuration still carries a release frequency (ignored: not continuous)
         sc["plan"]["leftover_freq_steps"] = s.randint(1, 4)
@@ -307,5 +309,7 @@ def execute(sc) -> Result:
         res.probes["leftover_frequency"] += 1
     if plan.get("alt_module"):
         res.probes["user_gridforce_module"] += 1
+    if sc["frames"].get("grid_in_first_only"):
+        res.probes["grid_in_first_file_only"] += 1
     res.nontrivial = ran >= 3 and nonempty >= 2
     return res
